@@ -94,11 +94,13 @@ class FactReach(object):
   `call_keys`: texts of pure predicate calls (`col.is_formula()`) that may serve as fact keys; such
   a fact is dropped where the receiver variable is rebound.
   """
-  def __init__(self, cfg, tracked, call_kills=(), call_keys=()):
+  def __init__(self, cfg, tracked, call_kills=(), call_keys=(), noreturn=None):
     self.cfg = cfg
     self.tracked = set(tracked) | set(call_keys)
     self.call_kills = set(call_kills)
     self.call_keys = set(call_keys)
+    self.noreturn = noreturn      # predicate(node): the statement is a call that always raises
+    self.noreturn_seen = set()
 
   def keyf(self, e):
     if isinstance(e, ast.Call) and self.call_keys and text(e) in self.call_keys:
@@ -153,6 +155,12 @@ class FactReach(object):
         continue
       n = cfg.nodes[nid]
       f = self._transfer(n, dict(ff))
+      if self.noreturn is not None and n.kind == "stmt" and self.noreturn(n):
+        self.noreturn_seen.add(nid)
+        for m in cfg.succ[nid]:
+          if (nid, m) in cfg.exc_edges:
+            work.append((m, frozenset(f.items())))
+        continue
       if n.kind in ("if", "while") and not isinstance(n.stmt.test, ast.Constant):
         t, fl = branch_succ(cfg, nid)
         v = cond_value(n.stmt.test, f, self.keyf)
@@ -174,6 +182,24 @@ class FactReach(object):
       for (m, g) in nxt:
         work.append((m, frozenset(g.items())))
     return out
+
+
+def never_returns(world, fn, node):
+  """True when CFG node `node` is an expression statement calling a method of the same class
+  (`self.m(...)`) none of whose paths returns normally (a raise extracted into a helper)."""
+  s = node.stmt
+  if not (isinstance(s, ast.Expr) and isinstance(s.value, ast.Call)):
+    return False
+  f = s.value.func
+  if not (isinstance(f, ast.Attribute) and isinstance(f.value, ast.Name) and f.value.id == "self"):
+    return False
+  if fn.fi.cls is None:
+    return False
+  callee = world.repo.find_method(fn.fi.cls, f.attr)
+  if callee is None:
+    return False
+  ccfg = world.fn_of(callee).cfg
+  return ccfg.exit.id not in ccfg.reach({ccfg.entry.id})
 
 
 # ------------------------------------------------------------------------------------------
